@@ -288,6 +288,43 @@ func c05(r *mon.Run) {
 			}
 			t.Nontrivial("sized:" + strconv.Itoa(i))
 		}})
+	// documents decoded with json.Decoder.UseNumber (numbers arrive as json.Number, not float64): still JSON-decoded documents;
+	// whatever the library makes of such numbers, it returns - every function template, bare and in seven nestings
+	unBase := c06BaseDoc()
+	var unTrees []*gen.Expr
+	for _, c := range c06Calls(false, unBase) {
+		unTrees = append(unTrees, c06Nestings(c)[:8]...)
+	}
+	for _, c := range c06Specials() {
+		unTrees = append(unTrees, c)
+	}
+	unExtra := []string{"an[1:]", "an[::-1]", "ao[?n > `1`]", "ao[?n == `1`].s", "an[?@ < `3`]", "n < m", "n == `-1.5`", "[n, m][?@ > `0`]", "an[0]", "ao[*].n | sort(@)", "sum(ao[*].n)", "avg(ao[*].o.n)", "max(an) > min(an)", "to_string(@)", "abs(n) + `1`", "an[*].abs(@)", "map(&abs(@), an)", "sort_by(ao, &n)[0]", "an == `[3,1,2,1]`", "contains(an, `1`)", "ceil(n)", "floor(m)", "to_number(n)", "type(n)", "not_null(n)", "merge(o, {n: n})", "avg(an)", "avg(bign)", "sum(bign)", "max(bign)", "sort(bign)[0]", "join(',', an[*].to_string(@))"}
+	ws = append(ws, mon.Workload{Name: "documents-decoded-with-UseNumber", N: (len(unTrees) + len(unExtra)) * 2, Batch: 200,
+		Do: func(i int, t *mon.Tally) {
+			k := i / 2
+			var expr string
+			if k < len(unTrees) {
+				expr = gen.SpellTight(unTrees[k])
+			} else {
+				expr = unExtra[k-len(unTrees)]
+			}
+			doc := docs.Exotic(unBase, 0)
+			var o mon.Observed
+			api := "Search"
+			if i%2 == 1 {
+				o, api = apiCompiledSearch(expr, doc), "Compile+Search"
+			} else {
+				o = apiSearch(expr, doc)
+			}
+			t.Eval()
+			t.Count("search outcome on a UseNumber document:" + o.Class())
+			if o.Panicked {
+				r.Violate(&mon.Violation{Workload: "documents-decoded-with-UseNumber", Index: i, API: api, Expr: expr, DocDesc: "the base document of C06 decoded with UseNumber (every number a json.Number)", Expected: "a value or an error", Observed: o.String(), Detail: o.Stack,
+					Class: "documents-decoded-with-UseNumber: Search panics"})
+				return
+			}
+			t.Nontrivial("un:" + expr)
+		}})
 	r.Exec(ws...)
 	r.Extra["hostile_documents"] = len(hd)
 }
